@@ -61,6 +61,43 @@ def run_buffer(data, sr, w, ch, ops):
     return outs
 
 
+def run_buffer_pair(data, sr, w, ch, ops):
+    """the same operations on a source while a second source of the same format (other audio) is operated in lock step"""
+    from auditok.io import BufferAudioSource
+    other = bytes(reversed(data))
+    a, b = BufferAudioSource(data, sr, w, ch), BufferAudioSource(other, sr, w, ch)
+    outs = []
+    for o in ops:
+        for src, keep in ((a, True), (b, False)):
+            try:
+                k = o[0]
+                if k == 0:
+                    src.open(); r_ = [0]
+                elif k == 1:
+                    src.close(); r_ = [0]
+                elif k == 2:
+                    src.rewind(); r_ = [0]
+                elif k == 3:
+                    r_ = enc_out(src.read(o[1][0] if o[1] else None))
+                elif k == 4:
+                    r_ = [3, src.position]
+                elif k == 5:
+                    r_ = [4, C.fhex_me(src.position_s)]
+                elif k == 6:
+                    r_ = [3, src.position_ms]
+                elif k == 7:
+                    src.position = o[1]; r_ = [0]
+                elif k == 8:
+                    src.position_s = C.me_float(o[1]); r_ = [0]
+                else:
+                    src.position_ms = o[1]; r_ = [0]
+            except Exception as e:
+                r_ = [5, exc_code(e)]
+            if keep:
+                outs.append(r_)
+    return outs
+
+
 def run_filelike(kind, path, data, sr, w, ch, ops, burst=0):
     import auditok.io as aio
     if kind == "raw":
@@ -227,6 +264,11 @@ def run(prop, tier):
             wv = chk_reads(data, w * ch, ops, outs, sr=sr)
             if wv:
                 viol = {"what": wv, **meta[-1], "impl_outputs": outs}
+        if viol is None and n and len(cases) % 5 == 0:
+            outs2 = run_buffer_pair(data, sr, w, ch, ops)
+            if outs2 != outs:
+                k_ = [x == y for x, y in zip(outs, outs2)].index(False)
+                viol = {"what": "a buffer source answers operation no. %d (%r) with %r when a second source of the same format is operated in lock step, and with %r alone" % (k_, ops[k_], outs2[k_], outs[k_]), **meta[-1]}
     # ---- buffer source: positions in milliseconds at rates that are not multiples of 1000, where rate * ms / 1000 is a whole
     # number of samples (the float quotient rate / 1000 is inexact there: only the exact product decides the sample)
     for _ in range(400 if quick else 4000):
